@@ -107,3 +107,36 @@ func TestMeta(t *testing.T) {
 	raw, _ := json.Marshal(m)
 	fmt.Println("META:" + string(raw))
 }
+
+var fDump = flag.String("sim.dump", "", "replay file whose SendScenario is executed and dumped (debug aid)")
+
+// TestDump executes a SendScenario replay file and prints the server history and call records.
+func TestDump(t *testing.T) {
+	if *fDump == "" {
+		t.Skip("no dump request")
+	}
+	raw, err := os.ReadFile(*fDump)
+	if err != nil {
+		t.Fatal(err)
+	}
+	var rf ReplayFile
+	if err := json.Unmarshal(raw, &rf); err != nil {
+		t.Fatal(err)
+	}
+	var sc SendScenario
+	if err := json.Unmarshal(rf.Scenario, &sc); err != nil {
+		t.Fatal(err)
+	}
+	run := ExecSend(t, &sc, nil)
+	fmt.Printf("verdict=%s steps=%d infra=%q unfinished=%v\n", run.Res.Verdict, run.Res.Steps, run.Infra, run.Res.Unfinished)
+	for _, e := range run.Env.Srv.H.Events {
+		fmt.Printf("%4d step=%-5d t=%-12v conn=%d %-6s %-8s nth=%d code=%d act=%s state=%s obs=%s line=%q text=%q\n", e.Seq, e.Step, time.Duration(e.TimeNs), e.Conn, e.Kind, e.Verb, e.Nth, e.Code, e.Action, e.State, e.Obs, e.Line, e.Text)
+	}
+	for _, c := range run.Env.Calls {
+		fmt.Printf("call %s start=%v end=%v returned=%v err=%v panic=%v\n", c.Name, time.Duration(c.StartNs), time.Duration(c.EndNs), c.Returned, c.Err, c.Panic)
+	}
+	for _, p := range run.Env.Pipes {
+		a, b := p.StallBegan()
+		fmt.Printf("pipe %d: c2s=%d bytes s2c=%d bytes delivered=%d closed=%v stallBegan=%v/%v\n", p.ID, p.C2SLen(), p.S2CLen(), p.S2CDelivered(), p.Client.Closed(), time.Duration(a), time.Duration(b))
+	}
+}
